@@ -1,5 +1,6 @@
 import PytezosModel.Proofs.C19Dispatch
 /-! C19 helper lemmas: one step of `expand`, and the evaluation of the building blocks of expansions. -/
+set_option linter.unusedSimpArgs false
 namespace C19.Expand
 open Impl.Macros Generated.C19 Spec Sem C19.Dispatch
 
